@@ -475,7 +475,7 @@ fn main() {
     }
     let mut rng = Rng::new(args.seed);
     for c in corpus() { run_case(&c, &mut drv, &mut sum, &known, false); }
-    let (n_cut, n_op) = if args.thorough { (60_000, 200_000) } else { (6_000, 20_000) };
+    let (n_cut, n_op) = if args.thorough { (400_000, 1_000_000) } else { (40_000, 100_000) };
     for _ in 0..n_op {
         let op = *rng.pick(&["add", "sub", "mul", "div", "sqrt", "lt", "add", "sub", "mul", "div", "ofnat", "abs"]);
         let (a, b) = if op == "ofnat" {
